@@ -17,6 +17,9 @@ ul(i) for every position, get_underlier(name) and every payoff() answer / raised
 swaps, cell edits through variable / name / position, never-simulated instruments, one-path assets, refused names (fixed corpus + random).
 step sizes dt with a non-integer reciprocal (calendar days, dt > 1, ...): realized variance / volatility (dt as float / 0-dim tensor), variance swaps
 on injected and simulated prices, re-used objects: ops "var_swap", "session", "multi_session" (Float carrier), forward-start index: op "grid".
+multi-step object PROTOCOLS on every derivative kind (built-in, variance swap, user spread / basket): add_clause, list(pricer, cost),
+delist(), simulate, payoff(), named_clauses() in arbitrary order (fixed corpus + random; list / delist also inside the re-use sessions):
+listing / delisting is no operation for the clause registry, so the sessions go to ops "session" / "multi_session" / "clauses" without them.
 property predicate: the contract formulas in exact Fractions (independent of the model).
 """
 import math
@@ -831,6 +834,7 @@ def check(ctx):
     check_offgrid_maturity(ctx, torch, g)
     check_multi_asset(ctx, torch, g)
     check_step_sizes(ctx, torch, g)
+    check_listing_protocol(ctx, torch, g)
     return ctx.finish(
         rule="functional payoffs on dyadic paths (ties with the strike/extremes frequent, T=1,2,.., float32/64), derivative objects "
              "with injected buffers and random clause sequences (re-registration included; the same clause = the same callable object "
@@ -855,6 +859,10 @@ def check(ctx):
              "step sizes dt whose reciprocal is not a whole number (1/365.25, 0.03, 0.3, 2, 7/250, 0.003, 1.5, 3/8, 0.7; fixed list + random): realized "
              "variance / volatility with dt as float / 0-dim double / 0-dim single tensor, variance swaps on injected (history, clauses, object "
              "re-used) and simulated prices vs the contract by hand, the same through ops var_swap / session / multi_session, start-index sweep; "
+             "multi-step protocols on one derivative object of every kind (built-in, variance swap, user spread / basket): add_clause, "
+             "list(pricer, cost), delist(), simulate, payoff(), named_clauses() in arbitrary order (fixed corpus + random; list / delist also "
+             "inside the re-use sessions): payoff() = the registered clauses on the contract payoff in registration order whatever was listed / "
+             "delisted in between, named_clauses() unchanged by list / delist; the same through ops session / multi_session / clauses; "
              "non-trivial = T>=2 (functional), any derivative/start-index/re-use/off-grid case; distinct = sha1 of canonical case")
 
 
@@ -998,6 +1006,7 @@ def gen_reuse_ops(g, c):
     Python indices incl. negative ones) / badcell (index outside the buffer: IndexError, nothing changes) / reregister (a new buffer
     object, possibly of another shape) / simulate (the library replaces the buffer; the prices are then overwritten in place) /
     clause (affine, cap, floor, knock_out on the current path maximum) / badclause (refused name: KeyError, nothing changes) /
+    list / delist (list(pricer, cost) / delist(): no contract term, no clause, no price changes) /
     swap (the underlier is REPLACED: a new instrument object with its own prices, assigned by attribute or registered under the
     name "underlier") / extra (a further underlier "fx" / "collateral" is registered or replaced) /
     again (payoff() once more); ["quiet", op] = the operation is NOT followed by a payoff() call"""
@@ -1010,7 +1019,7 @@ def gen_reuse_ops(g, c):
     descs = [list(d) for _, d in c["adds"]]          # clauses registered so far (whatever the name)
     for _ in range(g.choice([1, 2, 3, 4, 6, 10])):
         N, T = len(paths), len(paths[0])
-        menu = [("strike", 4), ("again", 1), ("reregister", 1), ("simulate", 1), ("badcell", 1), ("swap", 2), ("extra", 1)]
+        menu = [("strike", 4), ("again", 1), ("reregister", 1), ("simulate", 1), ("badcell", 1), ("swap", 2), ("extra", 1), ("listing", 2)]
         if T > 0:
             menu.append(("spot", 3))
         if kind not in ("forward_start", "variance_swap"):
@@ -1044,6 +1053,9 @@ def gen_reuse_ops(g, c):
         elif op == "badcell":
             i, j = g.choice([(N, 0), (-N - 1, 0), (0, T), (0, -T - 1), (N + 2, T + 2)])
             o = ["badcell", [[i, j, rat_str(F(3, 2))]]]
+        elif op == "listing":
+            # the derivative becomes a hedging instrument / a private contract again: nothing of the contract changes
+            o = ["list", g.choice(PRICER_FORMS), g.choice(LIST_COSTS)] if g.chance(0.5) else ["delist"]
         elif op == "extra":
             # a further underlier (or another instrument under the name of a further underlier): the contract does not change
             o = ["extra", g.choice(["fx", "fx", "collateral"]), g.choice(["attr", "register"]),
@@ -1224,6 +1236,10 @@ def check_reuse(ctx, torch, g):
                     else:
                         reg.append([op[1], other])
                     # (nothing the ONE-buffer model knows of: the contract and its prices are as before)
+                elif what == "list":
+                    do_list(torch, d, op)          # (nothing the models know of: no step of the clause registry / the contract)
+                elif what == "delist":
+                    d.delist()
                 elif what in ("clause", "badclause"):
                     if op[1] != "" and "." not in op[1] and op[1] not in ("strike", "payoff", "maturity"):
                         cur["adds"].append([op[1], op[2]])
@@ -2080,6 +2096,288 @@ def check_multi_scripts(ctx, torch, g, Spread, Basket):
                 rec.op(mop, out)
         fin = {"strike": F(d.strike)} | ({"weights": [F(w) for w in d.weights]} if kind == "basket" else {})
         mrecs.append((case, rec, rec.final(d, **fin)))
+    ms_compare(ctx, mrecs)
+
+
+# ---------------------------------------------------------------------------------------------------------------------------
+# multi-step PROTOCOLS on one derivative object: a contract is written (clauses registered), listed as a hedging instrument
+# (list(pricer, cost)), delisted again, re-simulated, amended by further clauses - in any order.  Listing and delisting say how the
+# contract is TRADED, nothing about what it pays: after every step payoff() is the registered clauses applied to the contract payoff
+# in registration order (a clause registered again keeps its place), and named_clauses() is what it was before a list / delist.
+# Every kind: the built-in products, the variance swap, user-defined spread / basket contracts (the inherited machinery).
+# Steps: ["clause", name, desc] / ["list", pricer form, cost | None = default] / ["delist"] / ["simulate", prices] (the library
+# simulates, the prices are then replaced by dyadic ones) / ["payoff"] / ["names"].
+# For the models (ops "session", "multi_session", "clauses") list / delist are no operations of the clause registry: they are left out.
+
+PRICER_FORMS = ["function", "lambda"]
+LIST_COSTS = [None, 0.0, 1e-4, 1e-3, 0.5]
+USER_FAMILIES = ["spread_position", "spread_name", "basket"]
+
+
+def _pricer(torch, form):
+    if form == "lambda":
+        return lambda derivative: derivative.ul().spot * 0.5
+    def pricer(derivative):
+        return torch.zeros_like(derivative.ul().spot)
+    return pricer
+
+
+def do_list(torch, d, op):
+    if op[2] is None:
+        d.list(_pricer(torch, op[1]))
+    else:
+        d.list(_pricer(torch, op[1]), cost=op[2])
+
+
+def protocol_corpus():
+    """every kind, three fixed protocols (clauses that do not commute; list -> delist, a bare delist, clauses registered while listed,
+    a clause amended, a simulation while listed): part of every run, whatever the seed"""
+    A2, C1, F1 = ["affine", "2", "1/2"], ["cap", "1"], ["floor", "1/4"]
+    P = [[F(1), F(2), F(1, 2), F(1)], [F(1), F(1, 2), F(2), F(4)]]
+    Q = [[F(2), F(1), F(1), F(4)], [F(1), F(4), F(2), F(1, 2)]]
+    a, b, c3 = [[F(2), F(3)], [F(1), F(4)]], [[F(1), F(1, 2)], [F(1), F(1)]], [[F(1, 4)], [F(2)]]
+    a2, b2, c32 = [[F(1), F(7, 2)], [F(1), F(1, 4)]], [[F(1, 2), F(1)], [F(2), F(1, 8)]], [[F(1)], [F(1, 2)]]
+
+    def protocols(sim):
+        return [[["clause", "a", A2], ["clause", "b", C1], ["payoff"], ["list", "function", 1e-4], ["payoff"], ["delist"], ["names"], ["payoff"]],
+                [["clause", "a", A2], ["delist"], ["payoff"], ["names"]],
+                [["list", "lambda", None], ["clause", "b", C1], ["clause", "a", A2], ["delist"], ["clause", "b", F1], ["list", "function", 0.5],
+                 ["simulate", sim], ["delist"], ["names"], ["payoff"]]]
+    out = []
+    for kind in KINDS + ["variance_swap"]:
+        for k, steps in enumerate(protocols(enc_rat(Q))):
+            hist = ["direct", "direct", "extra+reassigned"][k]
+            others = {key: [[x * m for x in p] for p in Q] for key, m in zip(hist_assets(hist), (1, 2))}
+            out.append(dict(family=kind, steps=steps, c=dict(
+                kind=kind, call=True, strike=F(1), paths=P, adds=[], dt=F(1, 4), sidx=1, cform=CFORMS[k], share=True, hist=hist, others=others)))
+    for fam in USER_FAMILIES:
+        n = 3 if fam == "basket" else 2
+        for steps in protocols([enc_rat(x) for x in (a2, b2, c32)[:n]]):
+            out.append(dict(family=fam, steps=steps, c=dict(
+                family=fam, strike=F(1, 2), prices=[a, b, c3][:n], weights=[F(1), F(-1, 2), F(2)] if fam == "basket" else [F(1), F(-1)], adds=[])))
+    return out
+
+
+def gen_protocol(g):
+    user = g.chance(0.25)
+    if user:
+        c = gen_multi_asset(g)
+        fam, N, pow2 = c["family"], len(c["prices"][0]), False
+        paths = c["prices"][0]
+    else:
+        c = gen_deriv(g, "quick")
+        fam, N, pow2 = c["kind"], len(c["paths"]), c["kind"] == "forward_start"
+        paths = c["paths"]
+    knock = not user and fam != "variance_swap"
+    T0 = len(paths[0])
+    descs = [list(d) for _, d in c["adds"]]
+    steps = []
+    for _ in range(g.choice([2, 3, 4, 6, 9])):
+        what = g.weighted([("clause", 4), ("list", 3), ("delist", 3), ("simulate", 1), ("payoff", 3), ("names", 1)])
+        if what == "clause":
+            ck = g.choice(["affine", "cap", "floor"] + (["knock_out"] if knock else []))
+            if descs and g.chance(0.3):
+                d = list(g.choice(descs))
+            elif ck == "affine":
+                d = ["affine", rat_str(g.choice([F(1, 2), F(2), F(-1)])), rat_str(g.choice([F(0), F(1, 2), F(-1, 4)]))]
+            elif ck == "knock_out":
+                d = ["knock_out", rat_str(g.choice([max(p) for p in paths] + [g.dy(F(1, 4), 4, 3), F(2), F(4)]))]
+            else:
+                d = [ck, rat_str(g.dy(0, 2, 2))]
+            descs.append(d)
+            steps.append(["clause", g.choice(["a", "b", "c", "knock"]), d])
+        elif what == "list":
+            steps.append(["list", g.choice(PRICER_FORMS), g.choice(LIST_COSTS)])
+        elif what == "simulate":
+            N = N if g.chance(0.6) else g.small()
+            if user:
+                steps.append(["simulate", [enc_rat(gen_paths(g, N, g.small((1, 2, 3, 5)), 3)) for _ in c["prices"]]])
+            else:
+                paths = gen_paths(g, N, T0, 3, pow2=pow2)
+                steps.append(["simulate", enc_rat(paths)])
+        else:
+            steps.append([what])
+    return dict(family=fam, c=c, steps=steps + [["names"], ["payoff"]])
+
+
+def check_listing_protocol(ctx, torch, g):
+    Spread, Basket = user_contracts()
+    sreqs, smeta, mrecs, creqs, cmeta = [], [], [], [], []
+    for pc in protocol_corpus() + [gen_protocol(g) for _ in range(110 if ctx.tier == "quick" else 1800)]:
+        fam, c, steps = pc["family"], pc["c"], pc["steps"]
+        user, flt = fam in USER_FAMILIES, fam == "variance_swap"
+        if user:
+            case = {"contract": fam, "strike": rat_str(c["strike"]), "prices": enc_rat(c["prices"]), "weights": enc_rat(c["weights"]),
+                    "adds": c["adds"], "protocol": steps}
+        else:
+            case = _small(c) | {"protocol": steps}
+        ctx.case(case, nontrivial=True, tag="protocol_" + fam)
+        ctx.traces += 1
+        ctx.stats[f"protocol:contract={fam}"] += 1
+        pool = ClausePool(c.get("cform", "function"), c.get("share", True))
+        dtv = F(1, 4) if user else c["dt"]
+        if user:
+            assets = [new_stock(torch, p, dtv) for p in c["prices"]]
+            prices = [[list(r) for r in p] for p in c["prices"]]
+            rec = MultiRec(fam, first="first" if fam == "spread_name" else None, second="second" if fam == "spread_name" else None)
+            ids = [rec.add(a, p) for a, p in zip(assets, c["prices"])]
+            if fam == "basket":
+                d = Basket(assets, [float(w) for w in c["weights"]], float(c["strike"]), 1.0)
+                for i, k in enumerate(ids):
+                    rec.op(["register", f"asset{i}", k], None)
+            else:
+                d = Spread(assets[0], assets[1], float(c["strike"]), 1.0, "position" if fam == "spread_position" else "name")
+                rec.op(["assign", "first", ids[0]], None)
+                rec.op(["assign", "second", ids[1]], None)
+            for name, desc in c["adds"]:
+                d.add_clause(name, pool.get(desc))
+                rec.op(["clause", name, rec.encd(desc)], None)
+            rec.set_terms(c["strike"], dt=dtv, weights=c["weights"] if fam == "basket" else (), attrs=rec.static_attrs(d))
+            stock, sreq = None, None
+        else:
+            rec = MultiRec(fam, flt=flt)
+            try:
+                d, stock, reg = build_deriv(torch, c, pool, rec=rec)
+            except Exception as e:  # noqa
+                if c["hist"] != "direct":
+                    ctx.fail("registering a further underlier / re-assigning an underlier of a derivative raised", _small(c),
+                             key="derivative.underliers:registration-error", detail=canon_error(e))
+                    continue
+                raise InternalError("cannot build derivative: " + repr(e))
+            enc = rec.enc
+            sreq = {"op": "session", "carrier": "float" if flt else "rat", "kind": fam, "strike": enc(c["strike"]), "call": c["call"],
+                    "start": c["sidx"], "dt": enc(c["dt"]), "spot": [[enc(v) for v in p] for p in c["paths"]],
+                    "attrs": [n for n in ATTR_CANDIDATES if hasattr(d, n)]}
+            mops = [["clause", n, rec.encd(desc)] for n, desc in c["adds"]]
+            iouts = [None] * len(mops)
+            cur = dict(kind=fam, call=c["call"], strike=c["strike"], paths=[list(p) for p in c["paths"]], adds=None, sidx=c["sidx"], dt=c["dt"])
+        adds = [list(a) for a in c["adds"]]
+        seen = set()                 # list / delist carried out since the first clause was registered
+        got = None
+        for step, op in enumerate(steps):
+            what = op[0]
+            ctx.stats[f"protocol:step={what}"] += 1
+            here = case | {"step": step, "at": op[:1] if what == "simulate" else op, "registered": adds,
+                           "listed_or_delisted_since_first_clause": sorted(seen)}
+            blame = "delist" if "delist" in seen else ("list" if "list" in seen else "registration")
+            with torch.no_grad():
+                if what == "clause":
+                    f = pool.get(op[2])
+                    st, v, _ = call_impl(d.add_clause, op[1], f)
+                    if st != "ok":
+                        ctx.fail("add_clause under a free name raised" + (" on a listed derivative" if d.is_listed else ""), here,
+                                 key=f"derivative.{fam}.add_clause:protocol-error", detail=v)
+                        break
+                    adds.append([op[1], list(op[2])])
+                    rec.op(["clause", op[1], rec.encd(op[2])], None)
+                    if not user:
+                        mops.append(["clause", op[1], rec.encd(op[2])]); iouts.append(None)
+                    continue
+                if what in ("list", "delist"):
+                    before = list(d.named_clauses())
+                    st, v, _ = call_impl(do_list, torch, d, op) if what == "list" else call_impl(d.delist)
+                    if st != "ok":
+                        ctx.fail(f"{what}() raised", here, key=f"derivative.{fam}.{what}:protocol-error", detail=v)
+                        break
+                    if adds:
+                        seen.add(what)
+                    after = list(d.named_clauses())
+                    if [n for n, _ in after] != [n for n, _ in before] or any(x != y for (_, x), (_, y) in zip(before, after)):
+                        ctx.fail(f"{what}() changed the registered clauses of the derivative: named_clauses() before and after differ (how a "
+                                 "contract is traded says nothing about what it pays)", here, key=f"derivative.{fam}.named_clauses:changed-by-{what}",
+                                 detail={"before": [n for n, _ in before], "after": [n for n, _ in after]})
+                    continue          # (what payoff() then pays is judged by the steps that follow)
+                if what == "simulate":
+                    if user:
+                        prices = [dec_rat(p) for p in op[1]]
+                        d.simulate(n_paths=len(prices[0]))
+                        for a, p, k in zip(assets, prices, ids):
+                            a.register_buffer("spot", new_stock(torch, p, dtv).spot)
+                            rec.op(["swap_buffer", ["id", k], rec.rows(p)], None)
+                    else:
+                        cur["paths"] = dec_rat(op[1])
+                        new = new_stock(torch, cur["paths"], dtv).spot
+                        d.simulate(n_paths=len(cur["paths"]))
+                        if tuple(stock.spot.shape) == tuple(new.shape):
+                            stock.spot.copy_(new)
+                        else:
+                            stock.register_buffer("spot", new)
+                        for o in d.underliers():
+                            if o is not stock and rec.known(o) is not None:
+                                rec.op(["swap_buffer", ["id", rec.known(o)], rec.rows([[F(z) for z in r] for r in o.spot.tolist()])], None)
+                        rec.op(["swap_buffer", ["id", rec.known(stock)], rec.rows(cur["paths"])], None)
+                        mops.append(["reregister", [[enc(v) for v in p] for p in cur["paths"]]]); iouts.append(None)
+                    continue
+                if what == "names":
+                    names = [n for n, _ in d.named_clauses()]
+                    want = apply_clauses_py(adds, F(0), path=[F(0)])[0]
+                    if names != want:
+                        ctx.fail("named_clauses() does not list the registered clauses in registration order" +
+                                 (f" after the derivative was {blame}ed" if seen else ""), here,
+                                 key=f"derivative.{fam}.named_clauses:after-{blame}", detail={"named_clauses": names, "registered": want})
+                        break
+                    continue
+                st, v, mut = call_impl(d.payoff, watch=[("derivative", d)])
+                base = d.payoff_fn() if st == "ok" else None
+            if mut:
+                ctx.mutated("derivative.payoff", mut, here)
+            rec.query(st, v)
+            n_paths = len(prices[0]) if user else len(cur["paths"])
+            if not user:
+                mops.append(["query"])
+                iouts.append(("err", v) if st != "ok" else ("ok", [float(z) for z in v.reshape(-1).tolist()] if flt else tensor_to_fracs(v.reshape(-1))))
+            if st != "ok" or tuple(v.shape) != (n_paths,):
+                ctx.fail("payoff() raised / does not have one entry per path in a protocol of clause registrations, listing, delisting, simulation",
+                         here, key=f"derivative.{fam}.payoff:protocol-error", detail=v if st != "ok" else list(v.shape))
+                break
+            if flt:
+                # the contract by hand (doubles, tolerance), the clause arithmetic exactly (see the derivative section)
+                fp = [[float(z) for z in p] for p in cur["paths"]]
+                expb = [variance_by_hand(p, float(dtv)) - float(c["strike"]) for p in fp]
+                gotb = [float(z) for z in base.tolist()]
+                exp = [apply_clauses_float(adds, b) for b in gotb]
+                got = [float(z) for z in v.tolist()]
+                ok = _close(gotb, expb) and got == exp
+                det = {"impl": got, "clauses(payoff_fn)": exp, "payoff_fn": gotb, "contract": expb}
+            else:
+                if user:
+                    bs = [max(sum(w * p[r][-1] for w, p in zip(c["weights"], prices)) - c["strike"], 0) for r in range(n_paths)]
+                    exp = [apply_clauses_py(adds, b)[1] for b in bs]
+                else:
+                    exp = reuse_expected(cur | {"adds": adds})
+                got = tensor_to_fracs(v)
+                ok = got == exp
+                det = {"impl": enc_rat(got), "contract": enc_rat(exp)}
+            if not ok:
+                ctx.fail("payoff() is not the registered clauses applied to the contract payoff in registration order" +
+                         (f": the derivative was {blame}ed after clauses had been registered" if seen else ""), here,
+                         key=f"derivative.{fam}.payoff:clauses-after-{blame}", detail=det)
+                break
+        else:
+            if not flt and got is not None and not any(a[1][0] == "knock_out" for a in adds):
+                creqs.append({"op": "clauses", "adds": adds, "base": enc_rat(tensor_to_fracs(d.payoff_fn()))})
+                cmeta.append((case, got, [n for n, _ in d.named_clauses()]))
+        if user:
+            mfin = {"strike": F(d.strike)} | ({"weights": [F(w) for w in d.weights]} if fam == "basket" else {})
+        else:
+            fin = {"strike": F(d.strike), "names": [n for n, _ in d.named_clauses()], "spot": [[F(z) for z in r] for r in stock.spot.tolist()]}
+            if hasattr(d, "call"):
+                fin["call"] = bool(d.call)
+            if fam == "forward_start":
+                fin["start"] = d._start_index()
+            sreqs.append(sreq | {"ops": mops})
+            smeta.append((case, iouts, fin, flt))
+            mfin = {k: v for k, v in fin.items() if k in ("strike", "call", "start")}
+        mrecs.append((case, rec, rec.final(d, **mfin)))
+    try:
+        couts = ctx.driver(creqs)
+    except DriverBroken as e:
+        ctx.ties_broken.append({"kind": "driver", "detail": str(e)[:1500]})
+        couts = []
+    for (case, got, names), m in zip(cmeta, couts):
+        if m.get("names") != names or dec_rat(m.get("payoff", [])) != got:
+            ctx.disagree("clauses_protocol", case, {"names": names, "payoff": enc_rat(got)}, m)
+    sess_compare(ctx, sreqs, smeta)
     ms_compare(ctx, mrecs)
 
 
